@@ -490,9 +490,13 @@ class Model(object):
                 peer = int(kv.get("peer", "-1"))
                 other = o.rcv if kind == "aput" else o.snd
                 want = other[0] if (o.matched and other) else -1
-                if peer != want:
-                    raise Drift("peer of %s by actor %d op %d: API says %d, model says %d" % (kind, a, k, peer, want))
-                self.count("model.peer_crosscheck")
+                # The return line is printed in the run phase that follows the handling of the post, possibly after the announcements of
+                # actors that ran earlier in that phase (already in the model, not yet handled by the kernel): the API may lag behind the
+                # model (-1), but whenever it names a peer the model must name the same one.
+                if peer != -1:
+                    if peer != want:
+                        raise Drift("peer of %s by actor %d op %d: API says %d, model says %d" % (kind, a, k, peer, want))
+                    self.count("model.peer_crosscheck")
             return
 
         if kind in ("sleep", "yield", "lock", "unlock", "join"):
